@@ -1,0 +1,81 @@
+//go:build verif
+
+// Verification-only exports for property C21 (compressed server certificates).
+// Add-only: nothing in this file is compiled without the tag `verif`, and no existing
+// line of the package is changed by it.
+
+package tls
+
+import "net"
+
+// VerifMaxHandshake and VerifMaxHandshakeCertificateMsg expose the handshake size limits.
+const (
+	VerifMaxHandshake               = maxHandshake
+	VerifMaxHandshakeCertificateMsg = maxHandshakeCertificateMsg
+)
+
+// VerifCertMsg is the content of a TLS 1.3 Certificate message as the client keeps it.
+type VerifCertMsg struct {
+	Certificates [][]byte
+	OCSPStaple   []byte
+	SCTs         [][]byte
+}
+
+// VerifDecompressCert runs (*clientHandshakeStateTLS13).decompressCert for a client
+// connection over conn that advertised the certificate compression algorithms algs, on the
+// CompressedCertificate message (algorithm, uncompressedLength, compressed). Alerts the
+// client sends are written to conn (plaintext records: nothing has been negotiated).
+func VerifDecompressCert(conn net.Conn, algs []uint16, algorithm uint16, uncompressedLength uint32, compressed []byte) (*VerifCertMsg, error) {
+	uconn := UClient(conn, &Config{InsecureSkipVerify: true}, HelloCustom)
+	for _, a := range algs {
+		uconn.certCompressionAlgs = append(uconn.certCompressionAlgs, CertCompressionAlgo(a))
+	}
+	hs := &clientHandshakeStateTLS13{c: uconn.Conn, uconn: uconn}
+	m, err := hs.decompressCert(utlsCompressedCertificateMsg{
+		algorithm:                    algorithm,
+		uncompressedLength:           uncompressedLength,
+		compressedCertificateMessage: compressed,
+	})
+	if err != nil || m == nil {
+		return nil, err
+	}
+	return &VerifCertMsg{m.certificate.Certificate, m.certificate.OCSPStaple, m.certificate.SignedCertificateTimestamps}, nil
+}
+
+// VerifMarshalCertificateMsgTLS13 marshals a TLS 1.3 Certificate message (with its 4-byte
+// handshake header) the way the in-package server does.
+func VerifMarshalCertificateMsgTLS13(v VerifCertMsg) ([]byte, error) {
+	m := &certificateMsgTLS13{
+		certificate: Certificate{
+			Certificate:                 v.Certificates,
+			OCSPStaple:                  v.OCSPStaple,
+			SignedCertificateTimestamps: v.SCTs,
+		},
+		ocspStapling: v.OCSPStaple != nil,
+		scts:         v.SCTs != nil,
+	}
+	return m.marshal()
+}
+
+// VerifCompressedCertMarshal exposes (*utlsCompressedCertificateMsg).marshal for a message
+// built from its fields.
+func VerifCompressedCertMarshal(algorithm uint16, uncompressedLength uint32, compressed []byte) ([]byte, error) {
+	m := &utlsCompressedCertificateMsg{
+		algorithm:                    algorithm,
+		uncompressedLength:           uncompressedLength,
+		compressedCertificateMessage: compressed,
+	}
+	return m.marshal()
+}
+
+// VerifCompressedCertUnmarshal exposes (*utlsCompressedCertificateMsg).unmarshal; raw is what
+// marshal() returns afterwards (the bytes written to the transcript).
+func VerifCompressedCertUnmarshal(data []byte) (algorithm uint16, uncompressedLength uint32, compressed []byte, raw []byte, ok bool) {
+	m := new(utlsCompressedCertificateMsg)
+	ok = m.unmarshal(data)
+	if !ok {
+		return 0, 0, nil, nil, false
+	}
+	raw, _ = m.marshal()
+	return m.algorithm, m.uncompressedLength, m.compressedCertificateMessage, raw, true
+}
